@@ -16,6 +16,7 @@ import (
 	"tunnox-core/internal/packet"
 	"tunnox-core/internal/protocol/session"
 	"tunnox-core/internal/security"
+	"tunnox-core/internal/stream"
 	vk "tunnox-core/internal/verifkit"
 )
 
@@ -70,12 +71,43 @@ func (c *c07hCloud) EnsureClientOnline(id int64, nodeID, connID, ip, proto, ver 
 	return c.CloudControlAPI.EnsureClientOnline(id, nodeID, connID, ip, proto, ver)
 }
 
+// c07hPipe is the server end of a connection's transport with an injectable transient write
+// failure (what a send timeout / momentary network error looks like to the server).
+type c07hPipe struct {
+	*vk.BufConn
+	failWrites atomic.Bool
+}
+
+func (p *c07hPipe) Write(b []byte) (int, error) {
+	if p.failWrites.Load() {
+		return 0, fmt.Errorf("c07: injected transient write error")
+	}
+	return p.BufConn.Write(b)
+}
+
+// c07hConnect is miniNode.Connect with the transport wrapped in c07hPipe.
+func c07hConnect(n *miniNode, remote string) (*miniClient, *c07hPipe, error) {
+	sc, hc := vk.BufPipe(remote, "127.0.0.1:7000")
+	p := &c07hPipe{BufConn: sc}
+	stc, err := n.SM.AcceptConnection(p, p)
+	if err != nil {
+		sc.Close()
+		hc.Close()
+		return nil, nil, err
+	}
+	c := &miniClient{n: n, hc: hc, sc: sc, ConnID: stc.ID}
+	c.sp = stream.NewStreamProcessor(hc, hc, n.ctx)
+	return c, p, nil
+}
+
 type c07hConn struct {
-	slot    int
-	c       *miniClient
-	cleaned atomic.Bool
-	everReg atomic.Bool
-	ctlAs   atomic.Int64 // identity of the latest successful authentication if it was a control-type handshake, else 0
+	pipe     *c07hPipe
+	provenAs atomic.Int64 // harness ground truth: the identity this connection last PROVED (valid challenge response / credentials issued on it); 0 = none
+	slot     int
+	c        *miniClient
+	cleaned  atomic.Bool
+	everReg  atomic.Bool
+	ctlAs    atomic.Int64 // identity of the latest successful authentication if it was a control-type handshake, else 0
 }
 
 func (k *c07hConn) dead() (bool, string) {
@@ -223,12 +255,12 @@ func (w *c07hWorld) apply(op c07hOp, seq bool) bool {
 		if k != nil {
 			return false
 		}
-		c, err := w.n.Connect(fmt.Sprintf("10.7.1.%d:5000", op.Slot+1))
+		c, pipe, err := c07hConnect(w.n, fmt.Sprintf("10.7.1.%d:5000", op.Slot+1))
 		if err != nil {
 			w.run.Count("connect_failed", 1)
 			return false
 		}
-		nk := &c07hConn{slot: op.Slot, c: c}
+		nk := &c07hConn{slot: op.Slot, c: c, pipe: pipe}
 		w.mu.Lock()
 		w.slots[op.Slot] = nk
 		w.all[c.ConnID] = nk
@@ -291,8 +323,10 @@ func (w *c07hWorld) apply(op c07hOp, seq bool) bool {
 		if ok {
 			if ct == "control" {
 				k.ctlAs.Store(x)
+				k.provenAs.Store(x)
 			} else {
 				k.ctlAs.Store(0)
+				k.provenAs.Store(x)
 			}
 			w.run.Count("logins_ok", 1)
 			if otherID {
@@ -310,8 +344,25 @@ func (w *c07hWorld) apply(op c07hOp, seq bool) bool {
 		w.log(desc)
 		w.run.Count("failed_handshakes", 1)
 	case "p1only":
+		if seq && otherID {
+			if cur := sm.GetControlConnectionByClientID(x); cur != nil && cur.ConnID != c.ConnID {
+				// a bare challenge request naming ANOTHER client that is online, on an authenticated connection
+				w.run.Count("phase1_on_authenticated_conn_naming_online_client", 1)
+			}
+		}
 		_, _ = c.Phase1(x, "control")
 		w.log(desc)
+	case "notifyfail":
+		// configuration push (mapping change of an online client) whose write hits a transient error
+		if !seq || reg == nil || !reg.Authenticated || sm.GetControlConnectionByClientID(reg.ClientID) != reg {
+			return false
+		}
+		id := reg.ClientID
+		w.log(fmt.Sprintf("notify-config-push(c%d,%s) with failing write", op.Slot, w.name(id)))
+		k.pipe.failWrites.Store(true)
+		sm.NotifyClientUpdate(id)
+		k.pipe.failWrites.Store(false)
+		w.run.Count("config_push_write_failures", 1)
 	case "first":
 		w.mu.Lock()
 		many := len(w.clients) >= 11
@@ -326,6 +377,7 @@ func (w *c07hWorld) apply(op c07hOp, seq bool) bool {
 			w.secret[r.ClientID] = r.SecretKey
 			w.mu.Unlock()
 			k.ctlAs.Store(r.ClientID)
+			k.provenAs.Store(r.ClientID)
 			w.run.Count("first_connect_ok", 1)
 		}
 		w.log(fmt.Sprintf("first(c%d)=%v", op.Slot, r != nil && r.Success))
@@ -489,6 +541,10 @@ func (w *c07hWorld) check(opKind string) {
 			w.viol("C07:by-client-returns-unauthenticated-conn", opKind, extra)
 		case k.GetClientID() != x:
 			w.viol("C07:by-client-returns-conn-of-other-client", opKind, extra)
+		case own.provenAs.Load() != x:
+			// "belongs to that client" by the harness' ground truth, not by the server's own field
+			extra["conn_proved_identity"] = w.name(own.provenAs.Load())
+			w.viol("C07:by-client-returns-conn-that-never-proved-that-client", opKind, extra)
 		case sm.GetControlConnection(k.ConnID) != k:
 			w.viol("C07:by-client-returns-unregistered-conn", opKind, extra)
 		}
@@ -545,12 +601,12 @@ func (w *c07hWorld) finish() {
 
 func (w *c07hWorld) close() { w.n.Close() }
 
-var c07hKinds = []string{"connect", "connect", "login", "login", "login", "login", "tlogin", "badlogin", "p1only", "first", "hb", "hb", "expire", "kick", "disc", "eof", "apiclose"}
+var c07hKinds = []string{"connect", "connect", "login", "login", "login", "login", "tlogin", "badlogin", "p1only", "p1only", "notifyfail", "first", "hb", "hb", "expire", "kick", "disc", "eof", "apiclose"}
 
 func TestVerifC07HandshakeRandom(t *testing.T) {
 	run := vk.Start(t, "C07", "handshake-random")
 	defer run.Finish()
-	run.Rule("seeded random sequences of 50-200 applicable operations on the mini-server over 4 connection slots and 6 provisioned clients (3 generated ids plus the same credentials under ids +2^32, +2^31, +2^62; + up to 5 registered on the fly), control-connection cap none or 3, cloud-control state calls healthy / always failing / failing on a seeded pattern (injected at the SessionManager-cloud control boundary): connect, full challenge-response login as X (control / tunnel type; X may differ from the connection's current identity = re-authentication; X may be connected elsewhere = duplicate login), login with a wrong key, phase 1 only, first-connect (new identity on a possibly authenticated connection), heartbeat, heartbeat timeout (LastActiveAt into the past, real background sweep), KickOldControlConnection, disconnect command, CloseConnection from outside, transport EOF; invariants after every operation and after the adapter cleanup; distinct = 3-grams of operation kinds")
+	run.Rule("seeded random sequences of 50-200 applicable operations on the mini-server over 4 connection slots and 6 provisioned clients (3 generated ids plus the same credentials under ids +2^32, +2^31, +2^62; + up to 5 registered on the fly), control-connection cap none or 3, cloud-control state calls healthy / always failing / failing on a seeded pattern (injected at the SessionManager-cloud control boundary): connect, full challenge-response login as X (control / tunnel type; X may differ from the connection's current identity = re-authentication; X may be connected elsewhere = duplicate login), login with a wrong key, phase 1 only (also on an authenticated connection naming another online client), configuration push whose write fails, first-connect (new identity on a possibly authenticated connection), heartbeat, heartbeat timeout (LastActiveAt into the past, real background sweep), KickOldControlConnection, disconnect command, CloseConnection from outside, transport EOF; invariants after every operation and after the adapter cleanup; distinct = 3-grams of operation kinds")
 	r := run.Rand("seq")
 	nseq := run.Pick(200, 4000)
 	for s := 0; s < nseq && run.Violations() <= 20; s++ {
@@ -595,6 +651,8 @@ func TestVerifC07HandshakeRandom(t *testing.T) {
 	run.Floor("evicted_conns_reaped", 50)
 	run.Floor("failed_handshakes", 20)
 	run.Floor("cloud_faults_on_disconnect", 50)
+	run.Floor("phase1_on_authenticated_conn_naming_online_client", 20)
+	run.Floor("config_push_write_failures", 50)
 }
 
 // TestVerifC07HandshakeConcurrent: 8 goroutines, one connection slot each, real
@@ -741,9 +799,11 @@ func TestVerifC07HandshakeSimultaneousLogin(t *testing.T) {
 		wg.Wait()
 		if ok1 {
 			k1.ctlAs.Store(a)
+			k1.provenAs.Store(a)
 		}
 		if ok2 {
 			k2.ctlAs.Store(a)
+			k2.provenAs.Store(a)
 		}
 		run.Eval(1)
 		// quiescence: adapter cleanup for every transport the server closed
